@@ -271,8 +271,8 @@ int16_t COLssConfigureBitTiming(CO_LSS *lss, CO_IF_FRM *frm)
     baudId = CO_GET_BYTE(frm, 2);
     if (table == 0) {
         if (baudId < CO_LSS_MAX_BAUD) {
-            lss->CfgBaudrate = CO_LssBaudTbl[baudId];
-            if (lss->CfgBaudrate != 0) {
+            if (CO_LssBaudTbl[baudId] != 0) {
+                lss->CfgBaudrate = CO_LssBaudTbl[baudId];
                 error_code = 0;
             }
         }
